@@ -62,12 +62,16 @@ def job_conf(job):
     L2.shift = L.shift
     ts = sorted({t for (_, _, t) in triples})
     grid = (min(ts) - 1, max(ts) + 2) if ts else (-1, 2)
-    labels = {n: (rng.choice(["x", "y"]) if mode == "mixed" else "x") for n in known}
-    ren = {"x": "second", "y": "first"}
+    # label values are arbitrary hashable values: strings, integers, booleans, the empty string, 0 (falsy values included)
+    vx, vy = rng.choice([("x", "y"), ("x", "y"), (1, 0), (0, 1), (True, False), ("", "y"), (2.5, -1)])
+    rx, ry = rng.choice([("second", "first"), (0, 1), (1, 0), ("x", ""), (False, True)])
+    one = rng.choice(["z", "z", 0, "", 7, False])
+    labels = {n: (rng.choice([vx, vy]) if mode == "mixed" else vx) for n in known}
+    ren = {vx: rx, vy: ry}
     g = _labelled(False, triples, L, rng, known, labels)
     gv = _labelled(False, triples, L, rng, known, {n: ren[v] for n, v in labels.items()})
     gn = _labelled(False, triples, L2, rng, known, labels)
-    g1 = _labelled(False, triples, L, rng, known, {n: "z" for n in known})
+    g1 = _labelled(False, triples, L, rng, known, {n: one for n in known})
     obs = core.observe(g, L, known, grid)
     combos = [(s, d, p) for s in range(grid[0], grid[1]) for d in range(0, grid[1] - grid[0]) for p in PTYPES]
     if mode == "one":
@@ -104,7 +108,7 @@ def job_conf(job):
     head = {"op": "new", "dir": False, "rem": True, "fork": False, "res": "ok", "lab": lab,
             "obs": core.observe(core.new_graph(False, True), L, known, grid)}
     return [head, {"op": "conf", "fork": False, "res": "ok", "triples": [list(t) for t in triples],
-                   "labels": [[n, labels[n]] for n in known], "obs": obs, "es": es, "ss": ss}]
+                   "labels": [[n, repr(labels[n])] for n in known], "label_values": repr([vx, vy, rx, ry, one]), "obs": obs, "es": es, "ss": ss}]
 
 
 def run(prop, tier, seed):
@@ -119,7 +123,7 @@ def run(prop, tier, seed):
         else:
             graphs = rng.sample(graphs, min(len(graphs), 1500))
         for tr in graphs:
-            jobs.append((rng.randrange(1 << 30), tr, rng.choice(["int", "zero", "str"]), rng.choice(["neg", "big", "str", "int_rev"]), tier, nodes))
+            jobs.append((rng.randrange(1 << 30), tr, rng.choice(["int", "zero", "str", "under"]), rng.choice(["neg", "big", "str", "int_rev", "tuple", "mixed", "under"]), tier, nodes))
     for _ in range(15 if tier == "quick" else 300):
         nn = rng.choice([4, 5])
         tm = rng.choice([3, 4, 5])
